@@ -81,7 +81,6 @@ package types
 //@   ensures 0 <= i && i < len(c) ==> amt(c, coinat(c, i).Denom) > 0 && cidx(c, coinat(c, i).Denom) == i
 //@ axiom coinsListD(c, d)
 //@   ensures amt(c, d) > 0 ==> 0 <= cidx(c, d) && cidx(c, d) < len(c) && coinat(c, cidx(c, d)).Denom == d
-//@   ensures amt(c, d) >= 0
 
 // Field validators used by genesis validation: pure functions of their arguments (assumed: the outcome is a fixed
 // predicate of the argument, named here so that "what export produces is accepted" can be stated)
